@@ -325,7 +325,7 @@ def _correlation(blocks, bo, n_callee, lo, call, cont, adts=None):
     tested = call["dest"]["l"]
     b = cont
     via_branch = False
-    for _ in range(5):
+    for _ in range(14):
         blk = blocks[b]
         t = blk["term"]
         dl = None
@@ -353,8 +353,103 @@ def _correlation(blocks, bo, n_callee, lo, call, cont, adts=None):
                     tested = st["place"]["l"]
             b = t["target"]
             continue
+        if t["k"] in ("call", "assert", "drop") and t.get("target") is not None:
+            # other work between the helper's return and the test (the error value of
+            # `.ok_or(Error { .. })` is built there): the tested value must not be involved
+            m = set()
+            _places(t, m)
+            for st in blk["stmts"]:
+                _places(st, m)
+            if tested in m:
+                return None
+            b = t["target"]
+            continue
         return None
     return None
+
+
+def _synthetic_combinator(fb, caller, call):
+    """MIR of `bool::then_some(c, v)` / `Option::ok_or(o, e)` as std defines them
+    (`if c { Some(v) } else { None }`, `match o { Some(v) => Ok(v), None => Err(e) }`), typed
+    from the call site; spliced like an extracted helper so that the value's variant and the
+    caller's test of it are correlated (the same treatment a crate-local verdict helper gets)."""
+    T = fb._types
+    locs = caller["body"]["locals"]
+    name = call.get("resolved")
+    sp = call["span"]
+
+    def ty_of(op):
+        if op.get("k") in ("move", "copy"):
+            pl = op["place"]
+            t = locs[pl["l"]]["ty"]
+            for e in pl["p"]:
+                if e == "*":
+                    t = T[t].get("to")
+                elif isinstance(e, dict) and "ty" in e:
+                    t = e["ty"]
+                elif isinstance(e, dict) and "dc" in e:
+                    pass
+                else:
+                    return None
+                if t is None:
+                    return None
+            return t
+        if op.get("k") == "const":
+            return (op.get("val") or {}).get("ty")
+        return None
+
+    def find(sname):
+        for i, x in enumerate(T):
+            if x.get("s") == sname:
+                return i
+        return None
+
+    if call["dest"]["p"] or call.get("target") is None or len(call["args"]) != 2:
+        return None
+    dt = locs[call["dest"]["l"]]["ty"]
+    a0, a1 = ty_of(call["args"][0]), ty_of(call["args"][1])
+    if a0 is None or a1 is None:
+        return None
+
+    def P(l, proj=None):
+        return {"l": l, "p": proj or []}
+
+    def assign(l, rv):
+        return {"k": "assign", "place": P(l), "rv": rv, "span": sp}
+
+    def opt(variant, ty, ops):
+        return {"k": "aggregate", "ak": "adt", "path": "std::option::Option", "local": False, "variant": variant, "vname": ("None", "Some")[variant], "fields": ["0"] if variant else [], "args": [{"ty": ty}], "active": None, "ops": ops}
+
+    def res(variant, tys, ops):
+        return {"k": "aggregate", "ak": "adt", "path": "std::result::Result", "local": False, "variant": variant, "vname": ("Ok", "Err")[variant], "fields": ["0"], "args": [{"ty": t} for t in tys], "active": None, "ops": ops}
+
+    ret = {"k": "return", "span": sp}
+    if name == "core::bool::<impl bool>::then_some":
+        if T[dt].get("path") != "std::option::Option" or T[a0].get("s") != "bool":
+            return None
+        blocks = [
+            {"cleanup": False, "stmts": [], "term": {"k": "switch", "discr": {"k": "copy", "place": P(1)}, "targets": [["0", 1]], "otherwise": 2, "span": sp}},
+            {"cleanup": False, "stmts": [assign(0, opt(0, a1, []))], "term": ret},
+            {"cleanup": False, "stmts": [assign(0, opt(1, a1, [{"k": "move", "place": P(2)}]))], "term": ret},
+        ]
+        locals_ = [{"ty": dt, "mut": True}, {"ty": a0, "mut": False}, {"ty": a1, "mut": False}]
+    elif name == "std::option::Option::<T>::ok_or":
+        if T[dt].get("path") != "std::result::Result" or T[a0].get("path") != "std::option::Option":
+            return None
+        isz = find("isize")
+        tv = T[a0]["args"][0]["ty"]
+        if isz is None:
+            return None
+        blocks = [
+            {"cleanup": False, "stmts": [assign(3, {"k": "discr", "place": P(1)})], "term": {"k": "switch", "discr": {"k": "move", "place": P(3)}, "targets": [["0", 1], ["1", 2]], "otherwise": 3, "span": sp}},
+            {"cleanup": False, "stmts": [assign(0, res(1, [tv, a1], [{"k": "move", "place": P(2)}]))], "term": ret},
+            {"cleanup": False, "stmts": [assign(0, res(0, [tv, a1], [{"k": "move", "place": P(1, [{"dc": 1, "name": "Some"}, {"f": 0, "ty": tv}])}]))], "term": ret},
+            {"cleanup": False, "stmts": [], "term": {"k": "unreachable", "span": sp}},
+        ]
+        locals_ = [{"ty": dt, "mut": True}, {"ty": a0, "mut": False}, {"ty": a1, "mut": False}, {"ty": isz, "mut": True}]
+    else:
+        return None
+    return {"path": name, "def_kind": "AssocFn", "name": name.split("::")[-1], "body": {"arg_count": 2, "locals": locals_, "blocks": blocks, "span": sp}}
 
 
 def _places(x, out):
@@ -724,6 +819,7 @@ class FactBase:
         self.unzipped = set()
         if self.presentation != "written":
             self.unzip_user_iterators()
+            self.desugar_combinators()
             self.splice_fresh_helpers()
 
     def ty(self, ix):
@@ -738,6 +834,36 @@ class FactBase:
         if b is None:
             b = getattr(self, "_variants", {}).get(path)
         return b
+
+    COMBINATORS = ("core::bool::<impl bool>::then_some", "std::option::Option::<T>::ok_or")
+
+    def desugar_combinators(self):
+        """see _synthetic_combinator"""
+        self.desugared = []
+        for p in list(self.bodies):
+            for rnd in range(12):
+                b = self.bodies[p]
+                if b.kind == "Promoted":
+                    break
+                hit = None
+                # consumers first (`ok_or` before the `then_some` that feeds it): the producer's
+                # variants are then correlated with the consumer's test when it is spliced
+                for want in reversed(self.COMBINATORS):
+                    for bi, t in b.calls():
+                        if t.get("resolved") == want:
+                            syn = _synthetic_combinator(self, b.d, t)
+                            if syn is not None:
+                                hit = (bi, syn)
+                                break
+                    if hit is not None:
+                        break
+                if hit is None:
+                    break
+                nd = _splice(b.d, hit[0], hit[1], self.adts)
+                nb = Body(self, nd)
+                nb.path = p
+                self.bodies[p] = nb
+                self.desugared.append((p, hit[1]["path"]))
 
     def unzip_user_iterators(self):
         """see _unzip: loops over `a.zip(user_iterator)` shown as the two `next` calls std makes"""
